@@ -205,6 +205,7 @@ type c03World struct {
 	cmds         *clientpb.CommandCache
 	others       []*cert.Authority
 	otherID      hotstuff.ID
+	otherIDs     []hotstuff.ID // ids of the replicas whose keys the adversary holds, parallel to others
 	pool         *blockchain.Blockchain
 	blocks       []*hotstuff.Block
 	known        map[hotstuff.Hash]*hotstuff.Block
@@ -303,6 +304,7 @@ func c03NewWorld(t testing.TB, conf c03Cfg) *c03World {
 	for i, e := range full[:len(conf.IDs)] {
 		if conf.IDs[i] != self {
 			w.others = append(w.others, e.Authority())
+			w.otherIDs = append(w.otherIDs, conf.IDs[i])
 			if w.pool == nil {
 				w.pool = e.Blockchain()
 				w.otherID = conf.IDs[i]
@@ -657,6 +659,83 @@ func (w *c03World) shapeQC(target *hotstuff.Block, shape, label string) hotstuff
 	return qc
 }
 
+// mixedQC: g genuine votes for the block plus made-up entries for further distinct members that
+// never signed (bytes of a genuine signature re-used under their ids) up to a quorum; the made-up
+// entries come last, first, or interleaved.  g < 0 means quorum+g.
+func (w *c03World) mixedQC(target *hotstuff.Block, g int, pos string) hotstuff.QuorumCert {
+	q := w.quorumNow()
+	if g < 0 {
+		g = q + g
+	}
+	if g < 1 {
+		g = 1
+	}
+	if g > q {
+		g = q
+	}
+	if q > len(w.others) {
+		w.t.Fatalf("quorum %d exceeds the adversary's %d keys", q, len(w.others))
+	}
+	gen := w.sigs(target.ToBytes(), g)
+	info := c03QCInfo{haveBlock: w.available(target), blockView: target.View(), kind: fmt.Sprintf("mixed:%d-genuine+%d-made-up/%s", g, q-g, pos), nsig: g}
+	order := make([]bool, 0, q) // true = genuine entry
+	switch pos {
+	case "first":
+		for i := 0; i < q; i++ {
+			order = append(order, i >= q-g)
+		}
+	case "inter":
+		ng, nj := g, q-g
+		for i := 0; i < q; i++ {
+			takeJunk := nj > 0 && (ng == 0 || i%2 == 1)
+			if takeJunk {
+				nj--
+			} else {
+				ng--
+			}
+			order = append(order, !takeJunk)
+		}
+	default:
+		for i := 0; i < q; i++ {
+			order = append(order, i < g)
+		}
+	}
+	var sig hotstuff.QuorumSignature
+	switch ms := gen.(type) {
+	case crypto.Multi[*crypto.ECDSASignature]:
+		out := make(crypto.Multi[*crypto.ECDSASignature], 0, q)
+		gi, ji := 0, g
+		for _, isGen := range order {
+			if isGen {
+				out = append(out, ms[gi])
+				gi++
+			} else {
+				out = append(out, crypto.RestoreECDSASignature(ms[0].ToBytes(), w.otherIDs[ji]))
+				ji++
+			}
+		}
+		sig = out
+	case crypto.Multi[*crypto.EDDSASignature]:
+		out := make(crypto.Multi[*crypto.EDDSASignature], 0, q)
+		gi, ji := 0, g
+		for _, isGen := range order {
+			if isGen {
+				out = append(out, ms[gi])
+				gi++
+			} else {
+				out = append(out, crypto.RestoreEDDSASignature(ms[0].ToBytes(), w.otherIDs[ji]))
+				ji++
+			}
+		}
+		sig = out
+	default:
+		w.t.Fatalf("cannot mix a %T", gen)
+	}
+	qc := hotstuff.NewQuorumCert(sig, target.View(), target.Hash())
+	w.qcs[string(qc.ToBytes())] = info
+	return qc
+}
+
 // relabel re-attributes the last signature of a multi-signature to the replica under test.
 func (w *c03World) relabel(sig hotstuff.QuorumSignature) hotstuff.QuorumSignature {
 	switch ms := sig.(type) {
@@ -749,6 +828,8 @@ type c03Stim struct {
 	Proposer string `json:"proposer,omitempty"`       // "" (= sender) | other
 	K        int    `json:"signers,omitempty"`        // tc: number of signers (3 = quorum)
 	FailSend bool   `json:"fail_vote_send,omitempty"` // core.Sender.Vote fails while this stimulus is handled
+	G        int    `json:"genuine_votes,omitempty"`  // qc_kind mixed: genuine votes in the certificate (negative: quorum+G)
+	JunkPos  string `json:"made_up_pos,omitempty"`    // qc_kind mixed: made-up entries last | first | inter
 	Shape    string `json:"qc_shape,omitempty"`       // signature of the QC: nil | typednil | empty | junk ("" with Label: genuine quorum)
 	Label    string `json:"qc_label,omitempty"`       // view stated by the QC: "" (the block's) | zero | other
 	FailComm bool   `json:"fail_comm,omitempty"`      // Aggregate / Disseminate fail before sending anything
@@ -762,6 +843,11 @@ func (s c03Stim) String() string {
 	if s.FailComm {
 		s.FailComm = false
 		return s.String() + "!commfails"
+	}
+	if s.QCKind == "mixed" {
+		x := fmt.Sprintf("!mixed[%d,%s]", s.G, s.JunkPos)
+		s.QCKind = "genuine"
+		return s.String() + x
 	}
 	if s.Shape != "" || s.Label != "" {
 		x := fmt.Sprintf("!qc[%s,%s]", s.Shape, s.Label)
@@ -822,6 +908,7 @@ func (w *c03World) apply(s c03Stim) any {
 		w.members = append(w.members, c.ID())
 		sort.Slice(w.members, func(i, j int) bool { return w.members[i] < w.members[j] })
 		w.others = append(w.others, w.joiner.Authority())
+		w.otherIDs = append(w.otherIDs, c.ID())
 		w.joiner = nil
 		return nil
 	case "qc":
@@ -855,7 +942,12 @@ func (w *c03World) apply(s c03Stim) any {
 		if kind == "" {
 			kind = "genuine"
 		}
-		qc := w.makeQC(b, kind)
+		var qc hotstuff.QuorumCert
+		if kind == "mixed" {
+			qc = w.mixedQC(b, s.G, s.JunkPos)
+		} else {
+			qc = w.makeQC(b, kind)
+		}
 		info, _ := w.qcInfo(qc)
 		si := c03SI{ok: info.ok, view: qc.View(), desc: fmt.Sprintf("QC(%s, view %d)", kind, qc.View())}
 		if w.agg {
@@ -919,6 +1011,10 @@ func (w *c03World) craft(s c03Stim, cur hotstuff.View) hotstuff.ProposeMsg {
 	var qc hotstuff.QuorumCert
 	if s.Shape != "" || s.Label != "" {
 		qc = w.shapeQC(target, s.Shape, s.Label)
+	} else if s.QCKind == "mixed" && target.Hash() != gen.Hash() {
+		qc = w.mixedQC(target, s.G, s.JunkPos)
+	} else if s.QCKind == "mixed" {
+		qc = w.makeQC(target, "genuine")
 	} else if s.QCKind == "unknown" {
 		// a genuinely certified block that nobody will hand out
 		uv := target.View() + 1
@@ -1023,7 +1119,7 @@ func (w *c03World) craft(s c03Stim, cur hotstuff.View) hotstuff.ProposeMsg {
 		// ground truth of the aggregate part of VerifyAnyQC (evaluated when the proposal is handled): a
 		// quorum signed timeouts carrying aqc, aqc itself is valid (it is the only and hence highest
 		// QC), and it is the block's QC
-		w.aggs[&a] = c03AggInfo{nsig: k, qc: aqc, same: qc.Equals(aqc)}
+		w.aggs[&a] = c03AggInfo{nsig: k, qc: aqc, same: qc.View() == aqc.View() && qc.BlockHash() == aqc.BlockHash()}
 		msg.AggregateQC = &a
 	}
 	return msg
@@ -1533,6 +1629,33 @@ func TestVerifC03(t *testing.T) {
 	}
 	fmt.Fprintf(os.Stderr, "C03: boundary stream done after %.1fs\n", time.Since(t0).Seconds())
 
+	// 3c. larger worlds (quorum 9 of 13; thorough also 15 of 22) for both list schemes: certificates
+	// made of g genuine votes plus made-up entries of further distinct members, g = 8, q-1, 1, the
+	// made-up entries last / first / interleaved; every signature of a certificate has to be checked
+	bw := v.Stream("bigworld", "mismatches", 60)
+	sizes := []int{13}
+	if v.Thorough() {
+		sizes = append(sizes, 22)
+	}
+	for _, n := range sizes {
+		ids := make([]hotstuff.ID, n)
+		for i := range ids {
+			ids[i] = hotstuff.ID(i + 1)
+		}
+		for _, cn := range []string{crypto.NameECDSA, crypto.NameEDDSA} {
+			for _, ra := range []c03RuleAgg{{rules.NameChainedHotStuff, false}, {rules.NameFastHotStuff, true}} {
+				if len(c03Rulesets) == 1 && ra.rule != c03Rulesets[0] {
+					continue
+				}
+				conf := c03Cfg{Rule: ra.rule, Agg: ra.agg, Crypto: cn, IDs: ids, SelfIdx: 0, Rotation: "round-robin"}
+				for _, seq := range c03BigSeqs(ra.agg) {
+					c03RunCfg(t, v, bw, "bigworld", conf, seq)
+				}
+			}
+		}
+	}
+	fmt.Fprintf(os.Stderr, "C03: big-world stream done after %.1fs\n", time.Since(t0).Seconds())
+
 	// 4. configuration: replica id sets (large, non-contiguous, agreeing in their low bits), leader
 	// rotations, both timeout rules under every ruleset, and a replica joining the configuration
 	// after voter, synchronizer and rotation were created (leaders and the quorum size change)
@@ -1775,6 +1898,31 @@ func c03SelfCheck(t *testing.T) {
 			t.Fatalf("harness self-check: unsigned view-0 certificate for a non-genesis block not built as intended")
 		}
 	}
+}
+
+// c03BigSeqs: partly made-up certificates in a fresh and in a prepared state.
+func c03BigSeqs(agg bool) [][]c03Stim {
+	tc := c03Stim{Kind: "tc", K: 3}
+	h := c03Honest
+	var seqs [][]c03Stim
+	for _, g := range []int{8, -1, 1} {
+		for _, pos := range []string{"last", "first", "inter"} {
+			x := c03Stim{Kind: "propose", Sender: "leader", QCTarget: "tip", QCKind: "mixed", Parent: "qc", G: g, JunkPos: pos}
+			x1 := x
+			x1.ViewOff = 1
+			nv := c03Stim{Kind: "qc", QCKind: "mixed", G: g, JunkPos: pos}
+			if agg {
+				seqs = append(seqs,
+					[]c03Stim{h(0), tc, x, h(0)},
+					[]c03Stim{h(0), tc, h(0), tc, h(0), tc, x, nv, h(0)})
+			} else {
+				seqs = append(seqs,
+					[]c03Stim{h(0), x1, nv, h(1)},                    // the certificate would also move the view
+					[]c03Stim{h(0), h(1), h(1), x1, nv, tc, x, h(0)}) // after three voted rounds
+			}
+		}
+	}
+	return seqs
 }
 
 // c03ShapeSeqs: malformed certificates in prepared states.
